@@ -33,6 +33,29 @@ func splitClean(s string) []cleanDecl {
 	return out
 }
 
+// bracketsBalanced: (), [] properly nested (a cleanly parseable style leaves no block open).
+func bracketsBalanced(s string) bool {
+	var st []byte
+	for i := 0; i < len(s); i++ {
+		switch c := s[i]; c {
+		case '(':
+			st = append(st, ')')
+		case '[':
+			st = append(st, ']')
+		case ')', ']':
+			if len(st) == 0 || st[len(st)-1] != c {
+				return false
+			}
+			st = st[:len(st)-1]
+		case ';':
+			if len(st) != 0 {
+				return false
+			}
+		}
+	}
+	return len(st) == 0
+}
+
 func bareProp(p string) string {
 	for _, pre := range oracle.VendorPrefixes {
 		p = strings.TrimPrefix(p, pre)
@@ -181,8 +204,8 @@ func c10Judge(cs *core.Case, ob *Obs, lc core.LocalCounts) {
 				n++
 			}
 		}
-		if n != 1 || !cleanStyleRe.MatchString(sv) {
-			continue
+		if n != 1 || !cleanStyleRe.MatchString(sv) || !bracketsBalanced(sv) {
+			continue // not a cleanly parseable style
 		}
 		inDecls := splitClean(sv)
 		if inDecls == nil {
